@@ -30,6 +30,7 @@ class ALTerminal(busmodel.TerminalModel):
         self.polls_pending = 0
         self.nreq = 0
         self.polls = 0
+        self.poll_limit = 4 * (sum(delays) + len(delays)) + 12
         self.events = []          # ("w", value) / ("r", state, error)
 
     def write_120(self, data):
@@ -47,6 +48,13 @@ class ALTerminal(busmodel.TerminalModel):
 
     def read_130(self, n):
         self.polls += 1
+        if self.polls > self.poll_limit:
+            # every request is answered within the delays chosen: a master
+            # still polling now waits for something that cannot come
+            raise busmodel.Rejected(
+                f"the master is still polling after {self.polls - 1} reads "
+                f"(state {self.state}, error flag {self.error}): it neither "
+                "returns nor raises")
         if self.pending is not None:
             k = min(self.nreq - 1, len(self.delays) - 1)
             if self.err_at == self.polls:
